@@ -6,7 +6,7 @@ import ast
 from typing import Dict, List, Optional, Set, Tuple
 
 from ..model import AnchorError, Program, dotted, last_attr, norm, parent, walk_no_nested
-from ..report import Check
+from ..report import Check, guard
 from .c12 import _domain, chain_subject, failing_default_sites, reaching_default
 from .common import calls_in, guards_of, local_assignments, need_locals, returns_of, stmt_of
 
@@ -364,8 +364,8 @@ def r15_7(prog: Program, chk: Check) -> None:
 
 
 def run(prog: Program, chk: Check) -> None:
-    r15_1(prog, chk)
-    r15_2(prog, chk)
-    r15_4(prog, chk)
-    r15_5(prog, chk)
-    r15_7(prog, chk)
+    guard(chk, r15_1, prog, chk)
+    guard(chk, r15_2, prog, chk)
+    guard(chk, r15_4, prog, chk)
+    guard(chk, r15_5, prog, chk)
+    guard(chk, r15_7, prog, chk)
